@@ -36,6 +36,27 @@ EXCEPTIONS = [
 ]
 
 
+# reviewed list of obsolete keywords that are not a respelling of their replacement ('' = the keyword is ignored)
+KW_EXCEPTIONS = [
+    ('parameter_file', 'parameters'),  # BIOGEME(..., parameters=<file name or Parameters object>)
+    ('seed_param', 'seed'),  # toml parameter "seed"
+    ('bootstrap', 'run_bootstrap'),  # BIOGEME.estimate(run_bootstrap=...)
+    ('suggestScales', ''),  # documented as ignored
+]
+
+
+def expected_keyword(u, old):
+    """the current name the spelling of an obsolete keyword designates among the parameters of the function
+    (None: ignored keyword); raises KeyError when the spelling designates nothing or several names"""
+    ex = dict(KW_EXCEPTIONS)
+    if old in ex:
+        return ex[old] or None
+    cands = [p for p in u['params'] + u['extra'] if p != old and norm_name(p) == norm_name(old)]
+    if len(cands) != 1:
+        raise KeyError(f'{old}: {cands}')
+    return cands[0]
+
+
 def norm_name(s: str) -> str:
     return s.replace('_', '').lower()
 
@@ -376,6 +397,9 @@ def render_lean(T, known_bad, n_slots):
     L.append('/-- reviewed exceptions to the spelling rule -/')
     L.append('def exceptions : List (List Char × List Char) := [' + ', '.join(f'({lean_str(o)}.toList, {lean_str(n)}.toList)' for o, n in EXCEPTIONS) + ']')
     L.append('')
+    L.append('/-- reviewed exceptions to the spelling rule for obsolete keywords (empty replacement: ignored keyword) -/')
+    L.append('def kwExceptions : List (List Char × List Char) := [' + ', '.join(f'({lean_str(o)}.toList, {lean_str(n)}.toList)' for o, n in KW_EXCEPTIONS) + ']')
+    L.append('')
     L.append('def kwUses : List KwUse := [')
     rows = []
     nid = T['names']
@@ -391,6 +415,8 @@ def render_lean(T, known_bad, n_slots):
         ('known_bad_are_bad', 'checkKnownBad classes aliases knownBad = true', 'the listed known findings really violate the condition'),
         ('legacy_ok', 'checkLegacy names exceptions aliases = true', 'every old name is the legacy spelling of its target (or a reviewed exception)'),
         ('kw_ok', 'checkKw kwUses = true', 'keyword maps are injective, target existing parameters, and obsolete names are not parameters'),
+        ('kw_legacy_ok', 'checkKwLegacy names kwExceptions kwUses = true',
+         'every obsolete keyword is the legacy spelling of its replacement (or a reviewed exception)'),
         ('slot_count', f'countSlots classes aliases = {n_slots}', 'number of (class, alias) slots the correspondence must cover'),
     ]
     for name, stmt, doc in theorems:
@@ -1428,7 +1454,7 @@ def kw_worker(payload):
                     kwargs = dict(kwargs)
                     for o in olds:
                         v = olds[o](env)
-                        new = u['map'][o]
+                        new = expected_keyword(u, o)
                         if o not in combo:
                             # the other keywords of the function are given under their current names on both sides
                             if new is not None and func != '__init__':
@@ -1454,7 +1480,7 @@ def kw_worker(payload):
                     added.remove(m)
             ok = len(added) == len(combo)
             for o in combo:
-                new = u['map'][o]
+                new = expected_keyword(u, o)
                 if not any((f"'{o}'" in m and (new is None or f"'{new}=" in m)) for m in added):
                     ok = False
             if not ok:
